@@ -817,8 +817,10 @@ class Ctx:
         h = self.ex.handler_for('const ' + t)
         if h[0] == 'model':
             return h[1](self, [], t)
-        sc = self.prog.simple_consts()
         last = key.rsplit('::', 1)[-1]
+        if self.prog.src.structs.get(last) == []:
+            return Agg([], last)         # the value of a unit struct
+        sc = self.prog.simple_consts()
         if last in sc and len(sc[last]) == 1:
             return self.const(mp.parse_const(sc[last][0]), frame)
         raise Unmodelled('named const ' + t)
